@@ -18,7 +18,7 @@ COMPONENTS = E1_COMPONENTS
 ASSUMPTIONS = E1_ASSUMPTIONS + [
     "index titles: the path separator of the relative directory may be kept or replaced by the configured separator "
     "(the statement does not choose); both are accepted"]
-PROBES = ["dir_pattern_excluded", "dir_auto_excluded", "dir_emptied_by_exclusion", "depth_ge_2_recursive",
+PROBES = ["rerun_over_longer_stale_indexes", "cwd_inside_tree", "dir_pattern_excluded", "dir_auto_excluded", "dir_emptied_by_exclusion", "depth_ge_2_recursive",
           "sep_not_dot", "nested_below_dir_without_cmake", "nonrecursive", "prefix_default", "prefix_explicit"]
 
 
@@ -136,6 +136,8 @@ def evaluate(spec, ctx):
         if not spec["recursive"]:
             ctx.probes["nonrecursive"] += 1
         ctx.probes["prefix_default" if spec["prefix"] is None else "prefix_explicit"] += 1
+        if any(v["cwd"] == spec["proj"] or v["cwd"].startswith(spec["proj"] + "/") for v in spec["variants"]):
+            ctx.probes["cwd_inside_tree"] += 1
         if any(d for d in ch if d and not any(f.endswith(".cmake") for f in ch[d][1])
                and any(ch2.startswith(d + "/") for ch2 in ch)):
             ctx.probes["nested_below_dir_without_cmake"] += 1
@@ -153,6 +155,29 @@ def evaluate(spec, ctx):
             viols += check_tree(spec, pages, tree, walk, f"variant {vi}", ctx)
             if viols:
                 break
+            if vi == 0 and spec["out_kind"] != "nested" and pages:
+                # the same run again over an output directory whose index files are older, LONGER versions (a bigger
+                # tree was documented there before) stamped in the future: the indexes must come out closed again
+                import os
+                import time as _time
+                future = _time.time() + 86400 * 365
+                for k, text in pages.items():
+                    if posixpath.basename(k) == "index.rst":
+                        pth = os.path.join(base, spec["out"], k)
+                        with open(pth, "w") as f:
+                            f.write(text + "   zz_removed_module\n   zz_removed_dir/index.rst\n" + text.split("\n")[-2] + "\n")
+                        os.utime(pth, (future, future))
+                overlay, argv = c13.variant_setup(spec, var)
+                r2 = core.run_call(base, {"cwd": var["cwd"], "argv": argv, "listing_key": var["listing_key"],
+                                          "listing_explicit": var["listing_explicit"]})
+                ctx.note_call(r2)
+                ctx.probes["rerun_over_longer_stale_indexes"] += 1
+                if r2.status != 0:
+                    viols.append(viol("run-failed", f"re-run over stale indexes: status {r2.status} exc {r2.exc}"))
+                    break
+                viols += check_tree(spec, core.read_tree(base, spec["out"]), tree, walk, "re-run over stale, longer index files", ctx)
+                if viols:
+                    break
     finally:
         core.drop_base(base)
     return viols
